@@ -1,6 +1,8 @@
 #ifndef FASTSCAPELIB_UTILS_IMPL_THREAD_POOL_INL_HPP
 #define FASTSCAPELIB_UTILS_IMPL_THREAD_POOL_INL_HPP
 
+#include "fastscapelib/utils/verif_hooks.hpp"
+
 
 namespace fastscapelib
 {
@@ -31,10 +33,15 @@ namespace fastscapelib
         for (std::size_t i = 0; i < m_size; ++i)
             m_pause_jobs[i] = [this, i]()
             {
+                FSL_VERIF_POINT(verif::k_prelock, this, i, &m_cv_m);
                 std::unique_lock<std::mutex> lk(m_cv_m);
+                FSL_VERIF_POINT(verif::k_locked, this, i, &m_cv_m);
                 ++m_paused_count;
+                FSL_VERIF_POINT(verif::k_prewait, this, i, &m_cv_m);
                 m_cv.wait(lk);
+                FSL_VERIF_POINT(verif::k_woken, this, i, &m_cv_m);
                 --m_paused_count;
+                FSL_VERIF_POINT(verif::k_end, this, i, &m_cv_m);
             };
     }
 
@@ -60,7 +67,10 @@ namespace fastscapelib
 
         for (std::size_t i = 0; i < m_size; ++i)
             if ((*p_jobs)[i] != nullptr)
+            {
+                FSL_VERIF_POINT(verif::c_store, this, i, nullptr);
                 m_has_job[i].store(1, std::memory_order_relaxed);
+            }
     }
 
     /////////////////////////////////////////////////////////////////////////////////////////
@@ -71,12 +81,14 @@ namespace fastscapelib
         if (!m_paused)
         {
             wait();
+            FSL_VERIF_POINT(verif::c_setpause, this, 0, nullptr);
             set_tasks(m_pause_jobs);
             run_tasks();
             m_paused = true;
 
             while (m_paused_count != m_size)
             {
+                FSL_VERIF_POINT(verif::c_spin_pause, this, 0, nullptr);
             }
         }
     }
@@ -88,6 +100,7 @@ namespace fastscapelib
     {
         if (m_paused)
         {
+            FSL_VERIF_POINT(verif::c_notify, this, 0, &m_cv_m);
             m_cv.notify_all();
             m_paused = false;
             wait();
@@ -109,6 +122,7 @@ namespace fastscapelib
     {
         for (std::size_t i = 0; i < m_size; ++i)
         {
+            FSL_VERIF_POINT(verif::c_load, this, i, nullptr);
             if (m_has_job[i].load(std::memory_order_relaxed))
                 return false;
         }
@@ -132,13 +146,17 @@ namespace fastscapelib
     {
         if (!m_stopped)
         {
+            FSL_VERIF_POINT(verif::c_stopflag, this, 0, nullptr);
             m_stopped = true;
 
             if (m_paused)
                 resume();
 
             for (std::thread& worker : m_workers)
+            {
+                FSL_VERIF_POINT(verif::c_joinall, this, &worker - &m_workers[0], nullptr);
                 worker.join();
+            }
         }
     }
 
@@ -169,17 +187,23 @@ namespace fastscapelib
 
             for (size_t i = 0; i < m_size; ++i)
             {
+                FSL_VERIF_POINT(verif::c_spawn, this, i, nullptr);
                 m_workers.emplace_back(
                     [this, i]
                     {
                         while (!m_stopped.load(std::memory_order_relaxed))
                         {
+                            FSL_VERIF_POINT(verif::w_loop, this, i, nullptr);
                             if (m_has_job[i].load(std::memory_order_relaxed))
                             {
+                                FSL_VERIF_POINT(verif::w_job, this, i, nullptr);
                                 (*p_jobs)[i]();
+                                FSL_VERIF_POINT(verif::w_done, this, i, nullptr);
                                 m_has_job[i].store(0, std::memory_order_relaxed);
                             }
+                            FSL_VERIF_POINT(verif::w_endloop, this, i, nullptr);
                         }
+                        FSL_VERIF_POINT(verif::w_exit, this, i, nullptr);
                     });
             }
         }
@@ -202,6 +226,7 @@ namespace fastscapelib
         {
             m_size = size;
             stop();
+            FSL_VERIF_POINT(verif::c_reinit, this, size, nullptr);
             m_stopped = false;
             m_workers.clear();
             m_workers.reserve(size);
@@ -236,10 +261,12 @@ namespace fastscapelib
                 else
                     p_jobs[i] = nullptr;
             }
+            FSL_VERIF_POINT(verif::c_publish, this, blks.num_blocks(), nullptr);
             set_tasks(p_jobs);
             run_tasks();
 
             wait();
+            FSL_VERIF_POINT(verif::c_return, this, 0, nullptr);
         };
     }
 
